@@ -692,6 +692,7 @@ COND_KINDS = {
     "ok",
     "notok",
     "cmp",
+    "notcmp",
     "in",
     "notin",
     "keys",
